@@ -55,10 +55,10 @@ Definition compressible (ct : bytes) : bool :=
   || has_prefix strImageIcon c || has_prefix strFontSlash c || has_prefix strMultipartSlash c.
 
 (* hasHeaderValue(s, value): headerValueScanner cuts at commas (a trailing empty element is not visited),
-   stripSpace removes blanks (0x20 only) at both ends, caseInsensitiveCompare ignores bit 0x20 *)
+   stripSpace removes SP / HTAB at both ends (c40b715), caseInsensitiveCompare ignores bit 0x20 *)
 Fixpoint strip_left_sp (s : bytes) : bytes :=
   match s with
-  | c :: r => if c =? SP then strip_left_sp r else s
+  | c :: r => if (c =? SP) || (c =? HT) then strip_left_sp r else s
   | [] => []
   end.
 Definition strip_space (s : bytes) : bytes := rev (strip_left_sp (rev (strip_left_sp s))).
@@ -134,11 +134,23 @@ Section Codec.
   (* writer.do(op) for an operation whose effect on the coder is `run`: queued or inline, the same effect *)
   Definition writer_do {A} (full : bool) (run : A) : A := if full then run else run.
 
+  (* The stackless writer hands the coder an in-memory sink (xw) and, when an operation has returned, forwards what
+     the sink holds and resets it (writer.do).  klauspost's zstd Encoder (default concurrency) writes a finished block
+     to its sink from a goroutine of its own, possibly after Write has returned: as soon as the data passes one
+     encoder block, such a write can fall between the forwarding and the reset, or tear the sink.  The other three
+     coders write synchronously. *)
+  Definition zstd_block : Z := 131072.     (* klauspost/compress zstd: maxCompressedBlockSize = 128 KiB (dependency, hand-typed) *)
+  Definition async_coder (k : coding) (consumed : bytes) : bool :=
+    match k with Zstd => (Z.of_nat (length consumed) >? zstd_block)%Z | _ => false end.
+
+  Definition coder_output (k : coding) (lvl : Z) (consumed : bytes) (closed : bool) : wire :=
+    if async_coder k consumed then WLossy k (enc k lvl consumed) else WCoded k (enc k lvl consumed) closed.
+
   (* Write<Coding>Level(w, p, level) for any other io.Writer: acquire (fresh writer), Write, release (Close) *)
   Definition write_generic (k : coding) (lvl : Z) (p : bytes) (full_write full_close : bool) : sres :=
     let written := writer_do full_write p in            (* the coder has consumed p *)
     let closed := writer_do full_close true in           (* the coder has written its final block and trailer *)
-    SOk (WCoded k (enc k lvl written) closed).
+    SOk (coder_output k lvl written closed).
 
   (* compress<Coding>BodyStream: for each chunk read from the body stream: Write, Flush (flushWriter.Write);
      then release (Close).  sched: queue refusals for the successive operations, missing entries = not refused *)
@@ -149,7 +161,7 @@ Section Codec.
     | c :: r => writer_do (nth_full sched i) c ++ writer_do (nth_full sched (S i)) [] ++ stream_consumed sched (S (S i)) r
     end.
   Definition stream_compress (k : coding) (lvl : Z) (chunks : list bytes) (sched : list bool) : sres :=
-    SOk (WCoded k (enc k lvl (stream_consumed sched 0 chunks)) (writer_do (nth_full sched (2 * length chunks)) true)).
+    SOk (coder_output k lvl (stream_consumed sched 0 chunks) (writer_do (nth_full sched (2 * length chunks)) true)).
 
   (* ---- Response.<coding>Body(level) ---- *)
   Record resp := {
